@@ -107,6 +107,8 @@ class GateRun:
         self.consumed: dict[int, int] = {}      # kind -> number of items the watcher has finished handling
         self.toggle_label: dict[int, tuple] = {}
         self.worker_info: dict[str, tuple] = {}
+        self.streams: dict[int, dict] = {}
+        self.coros: list = []
         self.saved: list[tuple] = []
         self.ts = aiotoggles.ToggleSet(all)
         self.ensemble = orchestration.Ensemble(operator_indexed=self.ts, operator_paused=aiotoggles.ToggleSet(any),
@@ -176,6 +178,7 @@ class GateRun:
             o = run.onum(uid)
             tg, gt = kw.get('resource_indexed') is not None, kw.get('operator_indexed') is not None
             run.worker_info[uid] = (tg, gt)
+            run.streams[run.rnum[resource]] = kw['streams']
             if tg:
                 run.toggle_label[id(kw['resource_indexed'])] = ('Indexed', o)
             run.labels.append(f'Spawn {cq.cnat(run.rnum[resource])} {cq.cnat(o)} {cq.cbool(tg)} {cq.cbool(gt)}')
@@ -189,7 +192,9 @@ class GateRun:
                 finally:
                     if done:
                         run.labels.append(f'Retire {cq.cnat(o)}')
-            return wrapped()
+            c = wrapped()
+            run.coros.append(c)
+            return c
         self._patch(m['queueing'], 'worker', worker)
 
         real_watcher = m['queueing'].watcher
@@ -285,6 +290,11 @@ class GateRun:
                     t.cancel()
             n = len(self.labels)
             vloop.close_loop(self.loop)
+            for c in self.coros:
+                try:
+                    c.close()          # pending coroutines of a deadlocked scheduler were never started
+                except Exception:
+                    pass
             del self.labels[n:]
         finally:
             self.uninstall()
@@ -345,6 +355,27 @@ def run_scenario(ctx: fw.Ctx, sc: dict, cases: list[fw.Case]) -> None:
         cases.append(fw.Case(f'opt_eqb Nat.eqb (gaccept {c_limit(limit)} ginit {tr} 0%nat) None '
                              f'&& match gfinal {c_limit(limit)} {tr} with Some (on, _) => Bool.eqb on {cq.cbool(real_on)} | None => false end',
                              data, f'(gaccept {c_limit(limit)} ginit {tr} 0%nat, gfinal {c_limit(limit)} {tr})'))
+        # ---- T2: end-of-run readings of the model (quiescent, live workers, early flags, limit_ok) vs the implementation
+        rs = sorted(started)
+        uid_kind = {u: i for i, k in enumerate(kinds) for u in k['early'] + k['late']}
+        earlies = []
+        for lab in labels:
+            if lab.startswith('Spawn '):
+                o = int(lab.split()[2].replace('%nat', ''))
+                uid = g.uids[o]
+                earlies.append((o, kinds[uid_kind[uid]]['indexed'] and uid in kinds[uid_kind[uid]]['early']))
+                ctx.count('gate_early', str(earlies[-1][1]))
+        live = [len(g.streams.get(r_, {})) for r_ in rs]
+        judge_open = all_fed and all(k in fed_listed for k in started)
+        ctx.count('gate_judged', f'judge_open={judge_open} real_on={real_on}')
+        cases.append(fw.Case(
+            f'gcheck {c_limit(limit)} {tr} {cq.clist(cq.cnat(x) for x in rs)} {cq.clist(cq.cnat(x) for x in range(len(g.uids)))} '
+            f'{cq.clist(cq.cnat(x) for x in live)} {cq.clist(cq.cpair(cq.cnat(o), cq.cbool(e)) for o, e in earlies)} '
+            f'{cq.cbool(judge_open)} {cq.cbool(real_on)}',
+            {**data, 'check': 'end-of-run', 'live': live, 'earlies': earlies, 'judge_open': judge_open, 'real_on': real_on},
+            f'(gearly {c_limit(limit)} ginit {tr}, match grun {c_limit(limit)} ginit {tr} with Some s => '
+            f'(quiescentb s {cq.clist(cq.cnat(x) for x in range(len(g.uids)))}, map (nseen s) {cq.clist(cq.cnat(x) for x in rs)}, '
+            f'limit_okb {c_limit(limit)} s {cq.clist(cq.cnat(x) for x in rs)}) | None => (false, nil, false) end)'))
         ctx.cov['traces_validated_against_impl'] += 1
         ctx.count('gate_labels', 'total', len(labels))
         for lab in labels:
